@@ -40,6 +40,24 @@ func (p *Prog) backwardReaches(v ssa.Value, target func(ssa.Value) bool) bool {
 					return true
 				}
 			}
+		case *ssa.MakeSlice:
+			// a local slice filled element by element (errs[i] = f()): what is stored into its elements
+			if x.Referrers() != nil {
+				for _, r := range *x.Referrers() {
+					if ia, ok := r.(*ssa.IndexAddr); ok && ia.Referrers() != nil {
+						for _, r2 := range *ia.Referrers() {
+							if st, ok := r2.(*ssa.Store); ok && st.Addr == ssa.Value(ia) && walk(st.Val, depth+1) {
+								return true
+							}
+						}
+					}
+				}
+			}
+			for _, op := range x.Operands(nil) {
+				if *op != nil && walk(*op, depth+1) {
+					return true
+				}
+			}
 		case *ssa.FreeVar:
 			r := resolveFreeVar(x)
 			if r != x {
